@@ -56,9 +56,12 @@ def propagateField (t : TField K R) (αr αc : R) (oe : Extent) (P0 P1 : Int) : 
   match dftWindow oe P0 P1 t.fix0 t.fix1 with
   | none => none
   | some (ish, isf, ps) =>
-    some { arr := dft2 t.fld.arr αr αc ish.1 ish.2 (RealLike.ofInt ps.1 + t.sub0) (RealLike.ofInt ps.2 + t.sub1)
-                    t.fld.o0 t.fld.o1 true,
-           o0 := isf.1, o1 := isf.2 }
+    -- the dft2 call and the output Field, argument by argument as generated from the source (`Gen.dftCall*`, `Gen.dftFieldOffset`)
+    let shp := Gen.dftCallShape ish.1 ish.2 isf.1 isf.2 t.fld.o0 t.fld.o1
+    let sft := Gen.dftCallShift (RealLike.ofInt ps.1) (RealLike.ofInt ps.2) t.sub0 t.sub1
+    let off := Gen.dftCallOffset ish.1 ish.2 isf.1 isf.2 t.fld.o0 t.fld.o1
+    let fo := Gen.dftFieldOffset ish.1 ish.2 isf.1 isf.2 t.fld.o0 t.fld.o1
+    some { arr := dft2 t.fld.arr αr αc shp.1 shp.2 sft.1 sft.2 off.1 off.2 true, o0 := fo.1, o1 := fo.2 }
 
 /-- `propagate_dft(wavefront, pixelscale, shape=(S0,S1), prop_shape=(P0,P1), oversample=os, mask)`: the list of
 output fields (`alpha` is computed by `dftAlpha`) -/
